@@ -569,3 +569,47 @@ def bind_args(ctx, call, func, target):
             continue
         out[k.arg] = k.value
     return out
+
+
+# ---------------------------------------------------------------------------
+# propositional reasoning over guards
+# ---------------------------------------------------------------------------
+
+def _atoms(expr, acc):
+    if isinstance(expr, ast.BoolOp):
+        for v in expr.values:
+            _atoms(v, acc)
+    elif isinstance(expr, ast.UnaryOp) and isinstance(expr.op, ast.Not):
+        _atoms(expr.operand, acc)
+    else:
+        t = norm(expr)
+        if t not in acc:
+            acc.append(t)
+
+
+def _truth(expr, val):
+    if isinstance(expr, ast.BoolOp):
+        vs = [_truth(v, val) for v in expr.values]
+        return all(vs) if isinstance(expr.op, ast.And) else any(vs)
+    if isinstance(expr, ast.UnaryOp) and isinstance(expr.op, ast.Not):
+        return not _truth(expr.operand, val)
+    return val[norm(expr)]
+
+
+def guards_imply(gs, target):
+    """Do the guards [(expr, polarity)] propositionally imply ``target`` (source text
+    or AST)?  Atoms are compared by normalised text; no theory reasoning."""
+    import itertools
+    if isinstance(target, str):
+        target = ast.parse(target, mode='eval').body
+    atoms = []
+    for e, _ in gs:
+        _atoms(e, atoms)
+    _atoms(target, atoms)
+    if len(atoms) > 12:
+        return False
+    for bits in itertools.product([False, True], repeat=len(atoms)):
+        val = dict(zip(atoms, bits))
+        if all(_truth(e, val) == pol for e, pol in gs) and not _truth(target, val):
+            return False
+    return True
